@@ -30,7 +30,7 @@ def place_demo(src, repo, meta):
     files = []
     for f in glob.glob(os.path.join(src, "*")):
         b = os.path.basename(f)
-        if b in ("patch.diff", "meta.json"):
+        if b in ("meta.json",) or b.startswith("patch"):
             continue
         dst = os.path.join(repo, demo_dir, b)
         os.makedirs(os.path.dirname(dst), exist_ok=True)
